@@ -389,7 +389,7 @@ def run_one(choices, params):
 
 
 def prepare(tier, seed):
-    return 4000 if tier == "quick" else 150000
+    return 12000 if tier == "quick" else 150000
 
 
 def params_for(i, tier, seed):
